@@ -141,8 +141,19 @@ def check_inverse_tables(res, v, a: Optional[str], b: Optional[str], rule="K-VID
         return
     for (x, other, xn, on) in ((sa, sb, a, b), (sb, sa, b, a)):
         for d in x:
-            sib = [o for o in other if o.scope == d.scope and o.key == d.val and o.val == d.key]
-            res.check(bool(sib), rule, f, norm(d.node)[:160], f"{xn}<->{on}", f"`{norm(d.node)[:120]}` has no inverse entry `{on}[{d.val}] = {d.key}` next to it: the id tables are not inverse of each other", loc(v.fi, d.node))
+            same_scope = [o for o in other if o.scope == d.scope]
+            sib = [o for o in same_scope if o.key == d.val and o.val == d.key]
+            # `B[A[k]] = k` next to `A[k] = v`: inverse through the stored value itself
+            via_lookup = [o for o in same_scope if (o.key == f"{xn}[{d.key}]" and o.val == d.key) or (d.key == f"{on}[{o.key}]" and d.val == o.key)]
+            if sib or via_lookup:
+                res.ok(rule, f, norm(d.node)[:160], f"{xn}<->{on}", loc(v.fi, d.node))
+                continue
+            half = [o for o in same_scope if o.key == d.val or o.val == d.key]
+            if half:
+                res.violation(rule, f, norm(d.node)[:160], f"{xn}<->{on}", f"`{norm(d.node)[:120]}` is paired with `{norm(half[0].node)[:120]}`, which is not its inverse entry `{on}[{d.val}] = {d.key}`: the id tables are not inverse of each other", loc(v.fi, d.node))
+            else:
+                # an entry without a counterpart in the other table: harmless when the id is used for the vertex directly
+                res.unknown(rule, f, norm(d.node)[:160], f"{xn}<->{on}", f"no entry of {on} is stored next to `{norm(d.node)[:100]}`", loc(v.fi, d.node))
 
 
 # ----------------------------------------------------------------------------------------------- graph calls
@@ -237,3 +248,38 @@ def check_vertices_are_ids(res, v, gcalls: List[GCall], inv: Optional[str], rule
             else:
                 st = "unknown"
             res.add(rule, f, norm(gc.node), f"from-id-table:{norm(a)}", st, what if st == "violation" else ("vertex argument not recognised as an id" if st == "unknown" else ""), loc(v.fi, gc.node))
+
+
+def check_all_nodes_are_vertices(ctx, res, dotted="projections.bipartite_projection", rule="K-VID"):
+    """The node side of the bipartite projection has one vertex per node of the hypergraph: some vertex-creating call runs
+    in a loop over get_nodes() (or is handed get_nodes()).  Node vertices created only while walking the members of the
+    hyperedges leave isolated nodes without a vertex."""
+    v = ctx.view(dotted)
+    f = v.fi.short
+    creators = [gc for gc in graph_calls(ctx, v) if gc.meth in ("add_node", "add_nodes_from")]
+
+    def over_nodes(e):
+        e = v.inline(e)
+        return any(isinstance(x, ast.Call) and isinstance(x.func, ast.Attribute) and x.func.attr == "get_nodes" for x in ast.walk(e))
+
+    def over_edges(e):
+        e = v.inline(e)
+        return any(isinstance(x, ast.Call) and isinstance(x.func, ast.Attribute) and x.func.attr == "get_edges" for x in ast.walk(e))
+
+    all_nodes = False
+    member_only = None
+    for gc in creators:
+        loops = v.enclosing_all(gc.node, (ast.For,))
+        comps = [c for c in ast.walk(gc.node) if isinstance(c, (ast.ListComp, ast.GeneratorExp, ast.SetComp))]
+        iters = [lp.iter for lp in loops] + [g.iter for c in comps for g in c.generators] + ([gc.node.args[0]] if gc.meth == "add_nodes_from" and gc.node.args else [])
+        if any(over_nodes(i) for i in iters):
+            all_nodes = True
+        elif len(loops) >= 2 and any(over_edges(lp.iter) for lp in loops):
+            # created inside `for edge in get_edges(): for node in edge:` - per member of a hyperedge
+            member_only = gc
+    if all_nodes:
+        res.ok(rule, f, "for node in h.get_nodes(): g.add_node(...)", "vertex-per-node", loc(v.fi, v.fi.node))
+    elif member_only is not None:
+        res.violation(rule, f, norm(member_only.node), "vertex-per-node", "node vertices are created only while walking the members of the hyperedges, never from get_nodes(): a node that lies in no hyperedge has no vertex in the bipartite projection (and no node centrality)", loc(v.fi, member_only.node))
+    else:
+        res.unknown(rule, f, "for node in h.get_nodes(): g.add_node(...)", "vertex-per-node", "no vertex creation driven by get_nodes() recognised", loc(v.fi, v.fi.node))
